@@ -157,6 +157,40 @@ class GroupModel:
         self.all_runs = rs if f is not None else []
 
 
+def runs_with_policy(repo, cls, policy, method="setup", max_runs=64, domains=()):
+    """Valuations of a group's setup in which ``policy(atom)`` fixes an atom
+    (True / False) or leaves it to be enumerated (None)."""
+    from .absint import NeedAtom, Run
+
+    f = cls.methods.get(method)
+    if f is None:
+        return []
+    work, out, n = [{}], [], 0
+    cmp_info = {}
+    while work:
+        sigma = work.pop()
+        n += 1
+        if n > max_runs * 6:
+            raise AnalysisError("valuation explosion in %s (policy)" % f.qual)
+        it = Interp(repo, cls, sigma, hooks=GROUP_HOOKS)
+        it.cmp_info.update(cmp_info)
+        try:
+            res = it.run_entry(f, None)
+        except NeedAtom as e:
+            cmp_info.update(it.cmp_info)
+            p = policy(e.atom)
+            if p is None:
+                work.append(dict(sigma, **{e.atom: False}))
+                work.append(dict(sigma, **{e.atom: True}))
+            else:
+                work.append(dict(sigma, **{e.atom: bool(p)}))
+            continue
+        r = Run(f, sigma, it, res)
+        if r.final is not None:
+            out.append(GroupRun(r))
+    return out
+
+
 _CACHE = {}
 
 
